@@ -35,6 +35,8 @@ def check(case, ctx):
     for k in kinds:
         ctx.event("adp:" + k)
     nontriv = False
+    ctx._sample_view = {"group": "%s (Sg%d, %s)" % (M.name, g.no, g.choice), "cell": M.cell, "operation": j,
+                        "atoms": [(m["el"], [str(x) for x in m["posf"]], m["kind"], m["occ"]) for m in M.model], "hkl": case["hkl"]}
     SF.warm_up(M, case, ctx)
     for h in case["hkl"]:
         h = np.array(h, np.int64)
